@@ -23,6 +23,7 @@ import (
 	"verifharness/internal/gen"
 	"verifharness/internal/repocheck"
 	"verifharness/internal/stores"
+	"verifharness/internal/syncx"
 	"verifharness/internal/xfer"
 )
 
@@ -40,7 +41,7 @@ var sub = evid.Register("crash", run)
 func TestPropCrash(t *testing.T) {
 	rapid.Check(t, func(t *rapid.T) {
 		c := Case{
-			Op:   rapid.SampledFrom([]string{"commit", "commit-first", "merge", "prune"}).Draw(t, "op"),
+			Op:   rapid.SampledFrom([]string{"commit", "commit-first", "merge", "prune", "fetch", "pull"}).Draw(t, "op"),
 			Rows: rapid.SampledFrom([]int{3, 40, 256, 300, 520}).Draw(t, "rows"),
 		}
 		c.Edit = rapid.IntRange(0, c.Rows-1).Draw(t, "edit")
@@ -98,6 +99,7 @@ type world struct {
 	repo *cli.Repo
 	snap string // pristine copy of the repository right before the operation
 	args []string
+	sync *syncx.World // fetch / pull: the remote side (reference server)
 }
 
 func (w *world) restore() error {
@@ -124,6 +126,30 @@ func setup(c Case) (*world, error) {
 	edited, _ := repo.WriteFile("edited.csv", table(c.Rows, map[int]string{c.Edit: "edited"}, nil).CSV(','))
 	other, _ := repo.WriteFile("other.csv", table(c.Rows, map[int]string{(c.Edit + 1) % c.Rows: "other"}, map[int]bool{(c.Edit + 2) % c.Rows: c.Rows > 2}).CSV(','))
 	switch c.Op {
+	case "fetch", "pull":
+		// the local repository shares c0 with the remote, which is two commits ahead on main
+		repo.Remove()
+		tp := syncx.Topology{
+			Nodes: []syncx.Node{
+				{Owner: syncx.Both, Parents: []int{}, Table: 1, Time: 1600000000},
+				{Owner: syncx.Remote, Parents: []int{0}, Table: 2 + c.Rows%3, Time: 1600000060},
+				{Owner: syncx.Remote, Parents: []int{1}, Table: 7 + c.Edit%3, Time: 1600000120},
+			},
+			Refs: []syncx.Ref{{Name: "heads/main", L: 0, R: 2, R2: 2}},
+		}
+		sw, err := syncx.Build(tp)
+		if err != nil {
+			return nil, err
+		}
+		sw.Server.MaxPackfileSize = uint64([]int{0, 1, 4000}[c.Rows%3])
+		w.sync = sw
+		w.repo = sw.Repo
+		repo = sw.Repo
+		if c.Op == "fetch" {
+			w.args = []string{"fetch", "origin"}
+		} else {
+			w.args = []string{"pull", "main", "origin", "+refs/heads/main:refs/remotes/origin/main", "-n", "1"}
+		}
 	case "commit-first":
 		w.args = []string{"commit", "main", base, "first", "-p", "id", "-n", "1"}
 	case "commit":
@@ -173,7 +199,11 @@ func setup(c Case) (*world, error) {
 }
 
 func (w *world) cleanup() {
-	w.repo.Remove()
+	if w.sync != nil {
+		w.sync.Close()
+	} else {
+		w.repo.Remove()
+	}
 	os.RemoveAll(w.snap)
 }
 
@@ -202,6 +232,9 @@ func run(c Case) (o evid.Outcome, err error) {
 	defer w.cleanup()
 	defer verifhook.SetPlan(verifhook.Plan{})
 	checkHeads := c.Op != "prune"
+	if c.Subproc && (c.Op == "fetch" || c.Op == "pull") {
+		return o, fmt.Errorf("HARNESS: subprocess mode is not available for %s", c.Op)
+	}
 
 	// uninterrupted run: counts the storage writes and fixes the expected outcome
 	verifhook.SetPlan(verifhook.Plan{})
